@@ -58,7 +58,19 @@ def _r1(ctx, pkg):
     ctx.check({"reactants", "products"} <= reads, "R1", "Reaction.__hash__:covers both sides", (RF, hf.lineno), "reactants and products both enter the hash")
     # rpeq itself: the two sides are compared as multisets under Species equality (Counter), or through a canonical order
     # whose key equal species share -- a name order does not (e- / E, #CO / GCO sort apart and misalign the lists)
-    rsorts = [c for c in ast.walk(rp) if isinstance(c, ast.Call) and ast.unparse(c.func) == "sorted"]
+    def pieces(fn):
+        """the method and the helper methods of the class it calls on self (transitively): one body split in pieces"""
+        out, todo = [fn], [fn]
+        while todo:
+            x = todo.pop()
+            for c in ast.walk(x):
+                if isinstance(c, ast.Call) and isinstance(c.func, ast.Attribute) and isinstance(c.func.value, ast.Name) and c.func.value.id == "self":
+                    h = res(c.func.attr)
+                    if h is not None and not any(h is y for y in out) and h not in (hf, ef, rp):
+                        out.append(h)
+                        todo.append(h)
+        return out
+    rsorts = [c for part in pieces(rp) for c in ast.walk(part) if isinstance(c, ast.Call) and ast.unparse(c.func) == "sorted"]
     rsrc = ast.unparse(rp)
     EXP = "Counter(self.reactants) == Counter(o.reactants) and Counter(self.products) == Counter(o.products)"
     if rsorts:
@@ -108,9 +120,9 @@ def _r1(ctx, pkg):
                     else:
                         ctx.bad("R1", K, (RF, rp.lineno), "both sides are compared as Counters (multisets under Species equality and hash)", expected=EXP, found=found)
     # canonicalising order
-    sorts = [c for c in ast.walk(hf) if isinstance(c, ast.Call) and ast.unparse(c.func) == "sorted"]
+    sorts = [c for part in pieces(hf) for c in ast.walk(part) if isinstance(c, ast.Call) and ast.unparse(c.func) == "sorted"]
     if not sorts:
-        src = ast.unparse(hf)
+        src = "\n".join(ast.unparse(part) for part in pieces(hf))
         multiset = "Counter(" in src or "frozenset" in src
         ctx.check(multiset, "R1", "Reaction.__hash__:order-free", (RF, hf.lineno),
                   "the hash is built from order-free multisets of species (consistent with rpeq's Counter comparison)" if multiset else
@@ -587,6 +599,7 @@ MUTANTS = [
     {"name": "species-hash-reads-name", "file": "naunet/species.py", "old": '                f"{self.basename}"\n                f"{self.charge}"', "new": '                f"{self.name}"\n                f"{self.charge}"', "rules": ["R2"]},
     {"name": "remove-in-place-backwards", "file": NF, "old": "            self.reaction_list = [\n                r for idx, r in enumerate(self.reaction_list) if idx not in reaction\n            ]\n", "new": "            for idx in sorted(reaction, reverse=True):\n                del self.reaction_list[idx]\n", "rules": ["R4"]},
 ]
+_HASH = "        return hash(\n            (\n                frozenset(Counter(self.reactants).items()),\n                frozenset(Counter(self.products).items()),\n            )\n        )\n"
 _RPEQ = "        return Counter(self.reactants) == Counter(o.reactants) and Counter(\n            self.products\n        ) == Counter(o.products)"
 _LOOP = ("            if chk not in seen:\n                seen[chk] = [idx]\n            else:\n                if len(seen[chk]) >= 1:\n                    dupes.append(reactions[idx])\n"
          "                    dupidx.append(idx)\n                seen[chk].append(idx)\n")
@@ -594,6 +607,8 @@ _RM = ("        elif isinstance(reaction, list) and all(isinstance(r, int) for r
        "                r for idx, r in enumerate(self.reaction_list) if idx not in reaction\n            ]\n")
 BENIGN = [
     {"name": "report-guard-gt-0", "file": NF, "old": "if len(seen[chk]) >= 1:", "new": "if len(seen[chk]) > 0:"},
+    {"name": "hash-key-in-helper", "file": RF, "old": _HASH,
+     "new": "        return hash(self._sides())\n\n    def _sides(self):\n        return (frozenset(Counter(self.reactants).items()), frozenset(Counter(self.products).items()))\n"},
     {"name": "rpeq-guard-clause", "file": RF, "old": _RPEQ,
      "new": "        if Counter(self.reactants) != Counter(o.reactants):\n            return False\n\n        return Counter(self.products) == Counter(o.products)"},
     {"name": "rpeq-locals-and-if-else", "file": RF, "old": _RPEQ,
@@ -631,4 +646,8 @@ MUTANTS += [
     {"name": "removal-predicate-by-value", "file": NF, "old": _RM,
      "new": "        elif isinstance(reaction, list) and all(isinstance(r, int) for r in reaction):\n            keep = lambda i, r: r not in reaction\n"
             "            self.reaction_list = [r for i, r in enumerate(self.reaction_list) if keep(i, r)]\n", "rules": ["R4"]},
+]
+MUTANTS += [
+    {"name": "hash-key-in-helper-sorted-by-name", "file": RF, "old": _HASH,
+     "new": "        return hash(self._sides())\n\n    def _sides(self):\n        return (tuple(sorted(self.reactants)), tuple(sorted(self.products)))\n", "rules": ["R1"]},
 ]
